@@ -131,7 +131,7 @@ InvOriginLog ==
      \* the penalty acts on w with weight alpha (objective 1/2 (dev + alpha |w|^2)): at w = 1, y = mu = e^x it is the whole gradient
      /\ g.x = 0 => /\ ~GlmStationary("log", g.pn, g.pd, x, <<S>>, <<1000000>>, 0, 1, 1, FALSE, 6)
                    /\ GlmStationary("log", g.pn, g.pd, x, <<S>>, <<1000000>>, 0, 0, 1, FALSE, 0)
-InvSupport ==
+ASSUME SupportTable ==
   /\ InSupport(0, 1, -S) /\ InSupport(0, 1, 0)
   /\ ~InSupport(1, 1, -1) /\ InSupport(1, 1, 0) /\ InSupport(3, 2, 0) /\ ~InSupport(3, 2, -2500)
   /\ ~InSupport(2, 1, 0) /\ InSupport(2, 1, 1) /\ ~InSupport(3, 1, 0) /\ ~InSupport(3, 1, -S)
